@@ -585,6 +585,10 @@ class Lexer:
                 )
 
     def accept_range(self) -> None:
+        if len(self.expression) < 5:
+            # Need at least `(`, start, `..`, stop and `)`.
+            self.raise_for_token("malformed range expression", self.expression[-1])
+
         rparen = self.expression.pop()
         assert is_token_type(rparen, TokenType.RPAREN)
 
